@@ -40,15 +40,22 @@ type srvBackend struct {
 	mu     sync.Mutex
 	gauges map[string]bool
 	events map[string]int
+	parser map[string]float64 // latest parser.* gauges of the server's own statser
 }
 
 func (b *srvBackend) Name() string { return fmt.Sprintf("verif-srv-%d", b.idx) }
 func (b *srvBackend) SendMetricsAsync(ctx context.Context, mm *gostatsd.MetricMap, cb gostatsd.SendCallback) {
 	var found []string
+	parserVals := map[string]float64{}
 	n := 0
 	mm.Gauges.Each(func(name, tk string, g gostatsd.Gauge) {
 		if strings.Contains(name, "verif.srv.") {
 			found = append(found, name)
+		}
+		for _, p := range []string{"parser.metrics_received", "parser.events_received", "parser.bad_lines_seen"} {
+			if strings.HasSuffix(name, "statsd."+p) {
+				parserVals[p] = g.Value
+			}
 		}
 	})
 	mm.Counters.Each(func(name, tk string, c gostatsd.Counter) { n += len(c.Tags) })
@@ -57,6 +64,9 @@ func (b *srvBackend) SendMetricsAsync(ctx context.Context, mm *gostatsd.MetricMa
 	b.mu.Lock()
 	for _, f := range found {
 		b.gauges[f] = true
+	}
+	for k, v := range parserVals {
+		b.parser[k] = v
 	}
 	b.mu.Unlock()
 	cb(nil)
@@ -76,6 +86,11 @@ func (b *srvBackend) hasGauge(suffix string) bool {
 		}
 	}
 	return false
+}
+func (b *srvBackend) accounted() (metrics, events, bad float64) {
+	b.mu.Lock()
+	defer b.mu.Unlock()
+	return b.parser["parser.metrics_received"], b.parser["parser.events_received"], b.parser["parser.bad_lines_seen"]
 }
 func (b *srvBackend) missingEvents(titles []string) []string {
 	b.mu.Lock()
@@ -177,7 +192,7 @@ func runServerScript(r *mon.Run, sc *srvConfig, steps []srvStep, second bool) (s
 	var bes []*srvBackend
 	var bs []gostatsd.Backend
 	for i := 0; i < sc.Backends; i++ {
-		b := &srvBackend{idx: i, gauges: map[string]bool{}, events: map[string]int{}}
+		b := &srvBackend{idx: i, gauges: map[string]bool{}, events: map[string]int{}, parser: map[string]float64{}}
 		bes, bs = append(bes, b), append(bs, b)
 	}
 	srv := &statsd.Server{
@@ -220,9 +235,10 @@ func runServerScript(r *mon.Run, sc *srvConfig, steps []srvStep, second bool) (s
 		tag = " (second run)"
 	}
 	var events []string
+	lines := 0
 	for i, st := range steps {
 		switch {
-		case st.udp != nil:
+		case st.http == nil: // a datagram (possibly of zero bytes)
 			r.Case("phase=server idx=%d step=%d%s udp %q cfg=%+v", sc.Index, i, tag, st.udp[:min(len(st.udp), 600)], *sc)
 			t := time.NewTimer(serverWatchdog)
 			select {
@@ -232,6 +248,7 @@ func runServerScript(r *mon.Run, sc *srvConfig, steps []srvStep, second bool) (s
 				return fmt.Sprintf("datagram-not-read(step %d)", i)
 			}
 			r.Event("server_datagrams", 1)
+			lines += len(splitLines(st.udp))
 			if st.event != "" {
 				events = append(events, st.event)
 			}
@@ -271,6 +288,18 @@ func runServerScript(r *mon.Run, sc *srvConfig, steps []srvStep, second bool) (s
 			r.Event("server_sentinels", 1)
 		}
 	}
+	// every datagram is accounted: the server's own parser.* gauges (METRICS.md), as flushed to the backends, add up to
+	// the lines that were sent. This also means that no parser goroutine is still working when the server is stopped.
+	if !mon.WaitUntil(serverWatchdog, func() bool {
+		m, e, bad := bes[0].accounted()
+		return m+e+bad >= float64(lines)
+	}) {
+		return "lines-not-accounted"
+	}
+	if m, e, bad := bes[0].accounted(); m+e+bad != float64(lines) {
+		r.Violation("lines-unaccounted", fmt.Sprintf("real server (%+v): %d lines were sent in datagrams, the server reports parser.metrics_received=%v events_received=%v bad_lines_seen=%v", *sc, lines, m, e, bad), &replayCase{Phase: "server", Kind: fmt.Sprintf("%+v", *sc), Index: sc.Index})
+	}
+	r.Event("server_lines_accounted", lines)
 	if !mon.WaitUntil(serverWatchdog, func() bool {
 		for _, b := range bes {
 			if len(b.missingEvents(events)) > 0 {
